@@ -65,6 +65,11 @@ func newCompressionPool(
 	newDecompressor func() Decompressor,
 	newCompressor func() Compressor,
 ) *compressionPool {
+	if newDecompressor == nil || newCompressor == nil {
+		// Options built from a nil pool are documented no-ops; a pool with a nil
+		// constructor would panic the first time it's used.
+		return nil
+	}
 	return &compressionPool{
 		decompressors: sync.Pool{
 			New: func() any { return newDecompressor() },
